@@ -1861,6 +1861,442 @@ def escTo130 : List Op :=
 
 
 
+/-! ### (c) the split is unique -/
+
+theorem split_unique_of_nodup {α : Type} (f : α → Addr) (x : α) :
+    ∀ (a a' b b' : List α), ((a ++ x :: b).map f).Nodup → a ++ x :: b = a' ++ x :: b' → a = a' ∧ b = b' := by
+  intro a
+  induction a with
+  | nil =>
+    intro a' b b' hnd e
+    cases a' with
+    | nil => simp only [List.nil_append, List.cons.injEq, true_and] at e; exact ⟨rfl, e⟩
+    | cons y a'' =>
+      simp only [List.nil_append, List.cons_append, List.cons.injEq] at e
+      obtain ⟨rfl, rfl⟩ := e
+      simp only [List.nil_append, List.map_cons, List.map_append, List.nodup_cons, List.mem_append,
+        List.mem_map, List.mem_cons] at hnd
+      exact absurd (Or.inr (Or.inl trivial)) hnd.1
+  | cons y a ih =>
+    intro a' b b' hnd e
+    cases a' with
+    | nil =>
+      simp only [List.nil_append, List.cons_append, List.cons.injEq] at e
+      obtain ⟨rfl, rfl⟩ := e
+      simp only [List.cons_append, List.map_cons, List.map_append, List.nodup_cons, List.mem_append,
+        List.mem_map, List.mem_cons] at hnd
+      exact absurd (Or.inr (Or.inl trivial)) hnd.1
+    | cons z a'' =>
+      simp only [List.cons_append, List.cons.injEq] at e
+      obtain ⟨rfl, e⟩ := e
+      simp only [List.cons_append, List.map_cons, List.nodup_cons] at hnd
+      obtain ⟨r1, r2⟩ := ih a'' b b' hnd.2 e
+      exact ⟨by rw [r1], r2⟩
+
+/-! ### (e) `JailedUntil` is tied to the jail log -/
+
+/-- `JailedUntil` of `a` is `jailedAt + duration` of its jail record -/
+def UntilOk (s : St) (a : Addr) : Prop :=
+  s.jailedUntil.get a = (s.jailLog.get a).map (fun r => r.jailedAt + r.duration)
+
+theorem untilOk_jailed (s : St) (t : Int) (b a : Addr) (h : UntilOk s a) : UntilOk (jailed s t b) a := by
+  unfold UntilOk at *
+  by_cases hab : a = b
+  · subst hab; simp [jailed, Map.get_set]
+  · simp [jailed, Map.get_set, hab, h]
+
+theorem apply_untilOk (s : St) (op : Op) (a : Addr) (h : UntilOk s a) : UntilOk (apply s op) a := by
+  cases op with
+  | addVal v => simp only [apply, addVal]; split <;> exact h
+  | setStatus b st => simp only [apply, setStatus]; split <;> exact h
+  | setPower b p => simp only [apply, setPower]; split <;> exact h
+  | extJail b => simp only [apply, extJail]; split <;> exact h
+  | extUnjail b => simp only [apply, extUnjail]; split <;> exact h
+  | unjail t b =>
+    simp only [apply, unjail]
+    split
+    · exact h
+    · split
+      · exact h
+      · split <;> exact h
+  | jail t b =>
+    simp only [apply]
+    rcases jail_cases s t b with e | ⟨_, _, _, _, e⟩
+    · rw [e]; exact h
+    · rw [e]; exact untilOk_jailed s t b a h
+  | keepAlive hh b ver =>
+    simp only [apply, keepAlive]
+    split
+    · exact h
+    · split <;> exact h
+  | setMinVersion v => simp only [apply, setMinVersion]; split <;> exact h
+  | scheduleMinVersion v n => simp only [apply, scheduleMinVersion]; split <;> exact h
+  | proposal hh v n =>
+    simp only [apply, proposal, setMinVersion, scheduleMinVersion]
+    split <;> split <;> exact h
+  | beginBlock hh =>
+    simp only [apply, beginBlock, setMinVersion]
+    split
+    · exact h
+    · split
+      · split <;> exact h
+      · exact h
+  | endBlock hh t =>
+    simp only [apply]
+    unfold UntilOk at *
+    rcases endBlock_jail_effect s hh t a with ⟨_, e2, e3⟩ | ⟨_, _, e3, e4⟩
+    · rw [e2, e3]; exact h
+    · rw [e3, e4]; rfl
+
+theorem run_untilOk (s : St) (ops : List Op) (a : Addr) (h : UntilOk s a) : UntilOk (run s ops) a := by
+  induction ops generalizing s with
+  | nil => exact h
+  | cons op rest ih => exact ih (apply s op) (apply_untilOk s op a h)
+
+set_option maxRecDepth 100000000 in
+/-- the long witness: validator `[2, 0x2c]` really SENT an accepted keep-alive (height 1) which
+expired (1 + 2000 ≤ 2010), the bonded validator `[1]` renewed its own at height 1500 -/
+def lvgLong : List Op :=
+  [ .addVal { addr := [1], status := .bonded, jailed := false, power := 10 },
+    .addVal { addr := [2, 0x2c], status := .unbonding, jailed := false, power := 3 },
+    .keepAlive 1 [1] defaultMinVersion, .keepAlive 1 [2, 0x2c] defaultMinVersion ]
+  ++ plainBlocks 1499 ++ [.beginBlock 1500, .keepAlive 1500 [1] defaultMinVersion, .endBlock 1500 1500000]
+  ++ (List.range 509).flatMap (fun (k : Nat) => plainBlock ((k : Int) + 1501)) ++ [.beginBlock 2010]
+
+set_option maxRecDepth 100000000 in
+theorem lvgLong_due : Due 1 lvgLong 2010 lvgVal ∧ acceptedKA lvgVal.addr lvgLong = [1] := by decide
+
+set_option maxRecDepth 100000000 in
+theorem lvgLong_outcome :
+    isJailed (run St.init (lvgLong ++ [.endBlock 2010 2010000])) lvgVal.addr = false ∧
+    ¬ (4 * consPower lvgVal > activeTotal (run St.init (lvgLong ++ [.endBlock 2010 2010000])).vals) ∧
+    activeCount (run St.init (lvgLong ++ [.endBlock 2010 2010000])).vals = 1 ∧
+    (run St.init (lvgLong ++ [.endBlock 2010 2010000])).vals = (run St.init lvgLong).vals := by
+  decide
+
+/-! ### provenance from ANY store (an upgraded chain: legacy snapshot blob, old records) -/
+
+/-- heights of the accepted keep-alives for `a` in `ops` run from the store `s0` -/
+def acceptedKAFrom (s0 : St) (a : Addr) (ops : List Op) : List Int := collect (kaOf a) s0 ops
+/-- the end blocks of `ops` run from the store `s0` -/
+def endBlocksFrom (s0 : St) (ops : List Op) : List (Int × Int × St) := collect ebOf s0 ops
+
+/-- the keep-alive record a sequence of accepted keep-alive heights leads to (the last one wins) -/
+def aliveAfter (u : Option Int) (ks : List Int) : Option Int :=
+  ks.foldl (fun _ h => some (h + keepAliveTTL)) u
+
+theorem aliveAfter_append (u : Option Int) (a b : List Int) :
+    aliveAfter u (a ++ b) = aliveAfter (aliveAfter u a) b := by
+  unfold aliveAfter; rw [List.foldl_append]
+
+theorem aliveAfter_cases (u : Option Int) (ks : List Int) :
+    (ks = [] ∧ aliveAfter u ks = u) ∨ (∃ hk ∈ ks, aliveAfter u ks = some (hk + keepAliveTTL)) := by
+  induction ks generalizing u with
+  | nil => exact Or.inl ⟨rfl, rfl⟩
+  | cons k ks ih =>
+    right
+    rcases ih (some (k + keepAliveTTL)) with ⟨e, h⟩ | ⟨hk, hm, h⟩
+    · subst e; exact ⟨k, by simp, h⟩
+    · exact ⟨hk, List.mem_cons_of_mem _ hm, h⟩
+
+theorem keepAlive_cases (s : St) (h : Int) (a : Addr) (ver : Ver) :
+    ((keepAlive s h a ver).2 = .rejected → (keepAlive s h a ver).1 = s) ∧
+    ((keepAlive s h a ver).2 = .ok →
+      (keepAlive s h a ver).1 = { s with alive := s.alive.set a (h + keepAliveTTL) }) := by
+  unfold keepAlive
+  cases hf : findVal s.vals a with
+  | none => simp
+  | some v =>
+    cases hv : vlt ver s.minVersion with
+    | true => simp
+    | false => simp
+
+theorem apply_alive (s : St) (op : Op) (a : Addr) :
+    (apply s op).alive.get a = aliveAfter (s.alive.get a) (kaOf a s op) := by
+  by_cases hka : ∃ h b v, op = .keepAlive h b v
+  · obtain ⟨h, b, v, rfl⟩ := hka
+    simp only [apply, kaOf]
+    by_cases hacc : b = a ∧ (keepAlive s h b v).2 = .ok
+    · rw [if_pos hacc]
+      obtain ⟨rfl, hacc⟩ := hacc
+      rw [((keepAlive_cases s h b v).2 hacc)]
+      simp [aliveAfter, Map.get_set]
+    · rw [if_neg hacc]
+      simp only [aliveAfter, List.foldl_nil]
+      cases hr : (keepAlive s h b v).2 with
+      | rejected => rw [(keepAlive_cases s h b v).1 hr]
+      | ok =>
+        rw [(keepAlive_cases s h b v).2 hr]
+        have hba : ¬ a = b := fun e => hacc ⟨e.symm, hr⟩
+        simp [Map.get_set, hba]
+  · have hne : ∀ h b v, op ≠ .keepAlive h b v := fun h b v e => hka ⟨h, b, v, e⟩
+    rw [apply_alive_of_not_ka s op hne, kaOf_of_not_ka a s op hne]
+    rfl
+
+theorem run_alive (s : St) (ops : List Op) (a : Addr) :
+    (run s ops).alive.get a = aliveAfter (s.alive.get a) (acceptedKAFrom s a ops) := by
+  induction ops generalizing s with
+  | nil => rfl
+  | cons op rest ih =>
+    show (run (apply s op) rest).alive.get a = _
+    rw [ih (apply s op), apply_alive s op a]
+    unfold acceptedKAFrom
+    simp only [collect]
+    rw [aliveAfter_append]
+
+/-- the snapshot a sequence of end blocks leads to (the last one wins) -/
+def prevAfter (p : Option Blob) (es : List (Int × Int × St)) : Option Blob :=
+  es.foldl (fun _ e => some (encodeSet (unjailedAddrs e.2.2))) p
+
+theorem apply_prev (s : St) (op : Op) : (apply s op).prev = prevAfter s.prev (ebOf s op) := by
+  cases heb : isEB op with
+  | false => rw [(apply_of_not_eb s op heb).2, ebOf_of_not_eb s op heb]; rfl
+  | true =>
+    cases op with
+    | endBlock h t => simp only [apply, ebOf, prevAfter, List.foldl_cons, List.foldl_nil, endBlock_prev]
+    | _ => simp [isEB] at heb
+
+theorem run_prev (s : St) (ops : List Op) :
+    (run s ops).prev = prevAfter s.prev (endBlocksFrom s ops) := by
+  induction ops generalizing s with
+  | nil => rfl
+  | cons op rest ih =>
+    show (run (apply s op) rest).prev = _
+    rw [ih (apply s op), apply_prev s op]
+    unfold endBlocksFrom prevAfter
+    simp only [collect, List.foldl_append]
+
+theorem prevAfter_cases (p : Option Blob) (es : List (Int × Int × St)) :
+    (es = [] ∧ prevAfter p es = p) ∨
+    (∃ e, es.getLast? = some e ∧ prevAfter p es = some (encodeSet (unjailedAddrs e.2.2))) := by
+  induction es generalizing p with
+  | nil => exact Or.inl ⟨rfl, rfl⟩
+  | cons x xs ih =>
+    right
+    rcases ih (some (encodeSet (unjailedAddrs x.2.2))) with ⟨e, h⟩ | ⟨e, hl, h⟩
+    · subst e; exact ⟨x, rfl, h⟩
+    · refine ⟨e, ?_, h⟩
+      cases xs with
+      | nil => cases hl
+      | cons y ys => rw [List.getLast?_cons_cons]; exact hl
+
+/-- the snapshot and grace stores after a well-formed history from ANY store `s0` -/
+structure GraceInvFrom (s0 : St) (h0 : Int) (a : Addr) (ops : List Op) : Prop where
+  eb_range : ∀ e ∈ endBlocksFrom s0 ops, h0 ≤ e.1 ∧ e.1 < heightAfter h0 ops
+  eb_exists : ∀ g, h0 ≤ g → g < heightAfter h0 ops → ∃ e ∈ endBlocksFrom s0 ops, e.1 = g
+  prev_init : heightAfter h0 ops = h0 → (run s0 ops).prev = s0.prev
+  prev_prov : ∀ e ∈ endBlocksFrom s0 ops, e.1 + 1 = heightAfter h0 ops →
+    (run s0 ops).prev = some (encodeSet (unjailedAddrs e.2.2))
+  grace_prov : ∀ g, (run s0 ops).grace.get a = some g →
+    ((∃ e ∈ endBlocksFrom s0 ops, e.1 = g ∧ a ∈ unjailedAddrs e.2.2) ∧
+      (∀ e ∈ endBlocksFrom s0 ops, e.1 + 1 = g → a ∉ unjailedAddrs e.2.2)) ∨
+    s0.grace.get a = some g
+  grace_lb : a ≠ [] → ∀ e ∈ endBlocksFrom s0 ops, h0 < e.1 → a ∈ unjailedAddrs e.2.2 →
+    (∀ e' ∈ endBlocksFrom s0 ops, e'.1 + 1 = e.1 → a ∉ unjailedAddrs e'.2.2) →
+    ∃ g, e.1 ≤ g ∧ (run s0 ops).grace.get a = some g
+
+theorem graceInvFrom (s0 : St) (h0 : Int) (a : Addr) :
+    ∀ ops, wf h0 ops = true → GraceInvFrom s0 h0 a ops := by
+  apply snoc_induction
+  · intro _
+    refine ⟨(by intro e h; cases h), ?_, fun _ => rfl, (by intro e h; cases h),
+      (fun g h => Or.inr h), (by intro _ e h; cases h)⟩
+    intro g h1 h2
+    simp only [heightAfter] at h2
+    omega
+  · intro ops op ih hw
+    rw [wf_snoc, Bool.and_eq_true] at hw
+    obtain ⟨hw1, hok⟩ := hw
+    obtain ⟨i1, i2, i3, i4, i5, i6⟩ := ih hw1
+    cases heb : isEB op with
+    | false =>
+      obtain ⟨hg, hp⟩ := apply_of_not_eb (run s0 ops) op heb
+      have he : endBlocksFrom s0 (ops ++ [op]) = endBlocksFrom s0 ops := by
+        unfold endBlocksFrom; rw [collect_snoc, ebOf_of_not_eb _ op heb]; simp
+      have hh : heightAfter h0 (ops ++ [op]) = heightAfter h0 ops := by
+        rw [heightAfter_snoc, nextH_of_not_eb _ op heb]
+      have hrun := run_snoc s0 ops op
+      refine ⟨?_, ?_, ?_, ?_, ?_, ?_⟩
+      · rw [he, hh]; exact i1
+      · rw [he, hh]; exact i2
+      · rw [hh, hrun, hp]; exact i3
+      · rw [he, hh, hrun, hp]; exact i4
+      · rw [he, hrun, hg]; exact i5
+      · rw [he, hrun, hg]; exact i6
+    | true =>
+      cases op with
+      | endBlock h t =>
+        have hh : h = heightAfter h0 ops := by simpa [opHeightOK] using hok
+        subst hh
+        have he : endBlocksFrom s0 (ops ++ [.endBlock (heightAfter h0 ops) t])
+            = endBlocksFrom s0 ops ++ [(heightAfter h0 ops, t, run s0 ops)] := by
+          unfold endBlocksFrom; rw [collect_snoc]; rfl
+        have hcur : heightAfter h0 (ops ++ [.endBlock (heightAfter h0 ops) t]) = heightAfter h0 ops + 1 := by
+          rw [heightAfter_snoc]; simp [nextH, isEB]
+        have hge := heightAfter_ge h0 ops
+        have hrun : run s0 (ops ++ [.endBlock (heightAfter h0 ops) t])
+            = endBlock (run s0 ops) (heightAfter h0 ops) t := by rw [run_snoc]; rfl
+        refine ⟨?_, ?_, ?_, ?_, ?_, ?_⟩
+        · intro e hm
+          rw [he] at hm
+          rw [hcur]
+          rcases List.mem_append.1 hm with hm | hm
+          · have := i1 e hm; omega
+          · simp at hm; subst hm; simp; omega
+        · intro g hg1 hg2
+          rw [hcur] at hg2
+          rw [he]
+          by_cases hg : g < heightAfter h0 ops
+          · obtain ⟨e, hm, hx⟩ := i2 g hg1 hg
+            exact ⟨e, List.mem_append.2 (Or.inl hm), hx⟩
+          · exact ⟨_, List.mem_append.2 (Or.inr (List.mem_singleton.2 rfl)), by simp; omega⟩
+        · intro hx; rw [hcur] at hx; omega
+        · intro e hm hx
+          rw [he] at hm
+          rw [hcur] at hx
+          rw [hrun, endBlock_prev]
+          rcases List.mem_append.1 hm with hm | hm
+          · have := i1 e hm; omega
+          · simp at hm; subst hm; rfl
+        · intro g hg
+          rw [hrun, endBlock_grace, updateGrace_grace] at hg
+          rw [he]
+          split at hg
+          · rename_i hnew
+            cases hg
+            left
+            refine ⟨⟨_, List.mem_append.2 (Or.inr (List.mem_singleton.2 rfl)), rfl, hnew.1⟩, ?_⟩
+            intro e hm hx
+            rcases List.mem_append.1 hm with hm | hm
+            · have hp := i4 e hm hx
+              rw [hp] at hnew
+              intro hin
+              have : a ∈ decodeSet (encodeSet (unjailedAddrs e.2.2)) := (codec_mem_lem _ _).2 (Or.inl hin)
+              have hc := hnew.2
+              simp only [Option.getD_some] at hc
+              rw [List.contains_eq_mem] at hc
+              simp [this] at hc
+            · simp at hm; subst hm; simp at hx; omega
+          · rcases i5 g hg with ⟨⟨e, hm, hx, hin⟩, hno⟩ | hold
+            · left
+              refine ⟨⟨e, List.mem_append.2 (Or.inl hm), hx, hin⟩, ?_⟩
+              intro e' hm' hx'
+              rcases List.mem_append.1 hm' with hm' | hm'
+              · exact hno e' hm' hx'
+              · simp at hm'; subst hm'
+                have := i1 e hm
+                simp at hx'; omega
+            · exact Or.inr hold
+        · intro hne e hm hlt hin hno
+          rw [hrun, endBlock_grace, updateGrace_grace]
+          rw [he] at hm hno
+          rcases List.mem_append.1 hm with hm | hm
+          · obtain ⟨g, hg1, hg2⟩ := i6 hne e hm hlt hin
+              (fun e' hm' hx' => hno e' (List.mem_append.2 (Or.inl hm')) hx')
+            have := i1 e hm
+            split
+            · exact ⟨_, by omega, rfl⟩
+            · exact ⟨g, hg1, hg2⟩
+          · simp at hm; subst hm
+            simp only at hin hno hlt ⊢
+            have hnew : (decodeSet ((run s0 ops).prev.getD [])).contains a = false := by
+              obtain ⟨e', hm', hx'⟩ := i2 (heightAfter h0 ops - 1) (by omega) (by omega)
+              rw [i4 e' hm' (by omega)]
+              simp only [Option.getD_some]
+              have hn := hno e' (List.mem_append.2 (Or.inl hm')) (by omega)
+              cases hc : (decodeSet (encodeSet (unjailedAddrs e'.2.2))).contains a with
+              | false => rfl
+              | true =>
+                rw [List.contains_eq_mem] at hc
+                have := (codec_mem_lem _ _).1 (of_decide_eq_true hc)
+                rcases this with h1 | ⟨_, h1⟩
+                · exact absurd h1 hn
+                · exact absurd h1 hne
+            rw [if_pos ⟨hin, hnew⟩]
+            exact ⟨_, Int.le_refl _, rfl⟩
+      | _ => simp [isEB] at heb
+
+/-- `Due`, from ANY store `s0` that is at the begin of block `h0` (an upgraded chain): as `Due`, plus
+what has to be known of the records `s0` already holds — one staking entry per address, a
+keep-alive record of `v` that has expired by `h`, and a grace record of `v` older than the block
+the history starts with (every record a node wrote before `h0` is). Nothing is assumed about the
+snapshot blob of `s0`: it may be in the legacy comma-joined format. -/
+def DueFrom (s0 : St) (h0 : Int) (ops : List Op) (h : Int) (v : Val) : Prop :=
+  wf h0 ops = true ∧ heightAfter h0 ops = h ∧ isSweepHeight h = true ∧
+  findVal (run s0 ops).vals v.addr = some v ∧ v.jailed = false ∧
+  (v.status = .bonded ∨ v.status = .unbonding) ∧
+  (∀ hk ∈ acceptedKAFrom s0 v.addr ops, hk + keepAliveTTL ≤ h) ∧
+  h0 + gracePeriod < h ∧
+  (∀ e ∈ endBlocksFrom s0 ops, h - gracePeriod - 1 ≤ e.1 → v.addr ∈ unjailedAddrs e.2.2) ∧
+  (addrsOf s0.vals).Nodup ∧
+  (∀ u, s0.alive.get v.addr = some u → u ≤ h) ∧
+  (∀ g, s0.grace.get v.addr = some g → g < h0)
+
+theorem isAlive_false_from (s0 : St) (a : Addr) (ops : List Op) (h : Int)
+    (hka : ∀ hk ∈ acceptedKAFrom s0 a ops, hk + keepAliveTTL ≤ h)
+    (hold : ∀ u, s0.alive.get a = some u → u ≤ h) :
+    isAlive (run s0 ops) a h = false := by
+  unfold isAlive
+  rw [run_alive]
+  rcases aliveAfter_cases (s0.alive.get a) (acceptedKAFrom s0 a ops) with ⟨_, e⟩ | ⟨hk, hm, e⟩
+  · rw [e]
+    cases hg : s0.alive.get a with
+    | none => rfl
+    | some u => have := hold u hg; simp only [decide_eq_false_iff_not]; omega
+  · rw [e]
+    have := hka hk hm
+    simp only [decide_eq_false_iff_not]; omega
+
+theorem inGrace_false_from (s0 : St) (h0 : Int) (a : Addr) (ops : List Op)
+    (hw : wf h0 ops = true) (hlong : h0 + gracePeriod < heightAfter h0 ops)
+    (hun : ∀ e ∈ endBlocksFrom s0 ops, heightAfter h0 ops - gracePeriod - 1 ≤ e.1 → a ∈ unjailedAddrs e.2.2)
+    (hold : ∀ g, s0.grace.get a = some g → g < h0) :
+    inGrace (updateGrace (run s0 ops) (heightAfter h0 ops)) a (heightAfter h0 ops) = false := by
+  obtain ⟨i1, i2, _, i4, i5, _⟩ := graceInvFrom s0 h0 a ops hw
+  have hgp : gracePeriod = 30 := rfl
+  obtain ⟨e, he, hx⟩ := i2 (heightAfter h0 ops - 1) (by omega) (by omega)
+  have hprev := i4 e he (by omega)
+  have hin : a ∈ unjailedAddrs e.2.2 := hun e he (by omega)
+  have hsame : (updateGrace (run s0 ops) (heightAfter h0 ops)).grace.get a
+      = (run s0 ops).grace.get a := by
+    have := grace_only_when_new_lem (run s0 ops) (heightAfter h0 ops) 0 _ a hprev hin
+    rw [endBlock_grace] at this
+    exact this
+  unfold inGrace
+  rw [hsame]
+  cases hg : (run s0 ops).grace.get a with
+  | none => rfl
+  | some g =>
+    simp only [decide_eq_false_iff_not]
+    intro hle
+    rcases i5 g hg with ⟨⟨e1, he1, hx1, _⟩, hno⟩ | hold'
+    · have hr := i1 e1 he1
+      obtain ⟨e2, he2, hx2⟩ := i2 (g - 1) (by omega) (by omega)
+      exact hno e2 he2 (by omega) (hun e2 he2 (by omega))
+    · have := hold g hold'
+      omega
+
+
+/-- an upgraded store at the begin of block 1000: four validators, the snapshot blob still in the
+LEGACY comma-joined format (and `[0x2c, 1]` contains the separator), an old grace record and an
+almost expired keep-alive record for `[0x2c, 1]`, fresh keep-alives for the others -/
+def upgStore : St :=
+  { St.init with
+    vals := [ { addr := [7], status := .bonded, jailed := false, power := 30 },
+              { addr := [8], status := .bonded, jailed := false, power := 30 },
+              { addr := [9], status := .bonded, jailed := false, power := 30 },
+              { addr := [0x2c, 1], status := .bonded, jailed := false, power := 10 } ],
+    prev := some (encodeSetLegacy [[7], [8], [9], [0x2c, 1]]),
+    grace := [([0x2c, 1], 990)],
+    alive := [([7], 2990), ([8], 2990), ([9], 2990), ([0x2c, 1], 1005)] }
+
+def upgVal : Val := { addr := [0x2c, 1], status := .bonded, jailed := false, power := 10 }
+
+/-- blocks 1000 … 1039 without transactions, then the begin of block 1040 -/
+def upgOps : List Op :=
+  (List.range 40).flatMap (fun (k : Nat) => plainBlock ((k : Int) + 1000)) ++ [.beginBlock 1040]
+
+
 end Lemmas
 
 
@@ -2538,6 +2974,18 @@ theorem inactive_jailed_history_exact (h0 : Int) (ops : List Op) (h t : Int) (v 
   rw [run_endBlock_sweep ops _ t hs]
   exact sweep_exact _ _ t l1 l2 v (nodup_init ops) hsplit hst hal hgr
 
+/-- **the turn is unique.** The split `l1 ++ v :: l2` of `inactive_jailed_history_exact` (and of
+every theorem below that is stated "∃ l1 l2") is unique: the staking view has one entry per address
+in every reachable state, so `l1` is THE list of unjailed entries the sweep visits before `v`. -/
+theorem sweep_turn_unique (ops : List Op) (v : Val) (l1 l2 l1' l2' : List Val)
+    (e : unjailedVals (run St.init ops) = l1 ++ v :: l2)
+    (e' : unjailedVals (run St.init ops) = l1' ++ v :: l2') : l1 = l1' ∧ l2 = l2' := by
+  have hnd : (addrsOf (unjailedVals (run St.init ops))).Nodup :=
+    List.Nodup.sublist (List.Sublist.map _ List.filter_sublist) (nodup_init ops)
+  rw [e] at hnd
+  exact split_unique_of_nodup (fun w : Val => w.addr) v l1 l1' l2 l2' hnd (e.symm.trans e')
+
+
 /-- **liveness with the exception split into its four parts.** A `Due` validator is, after the end
 block, jailed — or it holds more than 25 % of the bonded power (at its turn in the sweep) — or it
 is the last active validator — or (FOURTH disjunct, not in the property text: known finding
@@ -2670,14 +3118,38 @@ theorem mem_jailTimes_iff (a : Addr) (s : St) (ops : List Op) (t : Int) :
 
 /-! ### the liveness clause as written is false; the fourth disjunct is reachable -/
 
-/-- **the known finding, as a theorem from `St.init`.** There is a well-formed history from the
+/-- **the known finding, as a theorem from `St.init`, with a keep-alive that really EXPIRED.**
+There is a well-formed history from the initial state — two validators, one bonded, one unbonding;
+BOTH send an accepted keep-alive in block 1; the bonded one renews it in block 1500, the unbonding
+one falls silent; blocks 1 … 2009 and the begin of block 2010 — after which the unbonding validator
+has a non-empty list of accepted keep-alives, all of them older than the lifetime (1 + 2000 ≤ 2010),
+is `Due` at the sweep of height 2010, is NOT jailed, holds no bonded power at all and is not an
+active validator: only the fourth disjunct of `inactive_jailed_history` holds. (`Jail` refuses
+because `count == 1`, whoever the target is. Reproduced on the real implementation by the harness:
+monitor `inactive_jailed`, `last-validator-global`, known finding `C12-last-validator-global`.) -/
+theorem fourth_disjunct_reachable :
+    ∃ ops h t v, Due 1 ops h v ∧
+      acceptedKA v.addr ops ≠ [] ∧ (∀ hk ∈ acceptedKA v.addr ops, hk + keepAliveTTL ≤ h) ∧
+      isJailed (run St.init (ops ++ [.endBlock h t])) v.addr = false ∧
+      ¬ (4 * consPower v > activeTotal (run St.init (ops ++ [.endBlock h t])).vals) ∧
+      isActive v = false ∧
+      activeCount (run St.init (ops ++ [.endBlock h t])).vals = 1 ∧ v.status = .unbonding ∧
+      (run St.init (ops ++ [.endBlock h t])).vals = (run St.init ops).vals :=
+  ⟨lvgLong, 2010, 2010000, lvgVal, lvgLong_due.1, by rw [lvgLong_due.2]; simp,
+    lvgLong_due.1.2.2.2.2.2.2.1, lvgLong_outcome.1, lvgLong_outcome.2.1, by decide,
+    lvgLong_outcome.2.2.1, rfl, lvgLong_outcome.2.2.2⟩
+
+
+/-- **the known finding, shortest witness (60 blocks; the validator never sent a keep-alive, so
+"not for longer than the lifetime" holds over the empty list — see `fourth_disjunct_reachable` for
+a witness whose keep-alive really expired).** There is a well-formed history from the
 initial state — two validators, one bonded and kept alive, one unbonding and silent, blocks 1 … 60 —
 after which the silent unbonding validator is `Due` at the sweep of height 60, is NOT jailed, holds
 no bonded power at all and is not an active validator: only the fourth disjunct of
 `inactive_jailed_history` holds. (`Jail` refuses because `count == 1`, whoever the target is.
 Reproduced on the real implementation by the harness: monitor `inactive_jailed`,
 `last-validator-global`, known finding `C12-last-validator-global`.) -/
-theorem fourth_disjunct_reachable :
+theorem fourth_disjunct_reachable_silent :
     ∃ ops h t v, Due 1 ops h v ∧
       isJailed (run St.init (ops ++ [.endBlock h t])) v.addr = false ∧
       ¬ (4 * consPower v > activeTotal (run St.init (ops ++ [.endBlock h t])).vals) ∧
@@ -2688,10 +3160,31 @@ theorem fourth_disjunct_reachable :
     lvg_outcome.2.2.1, lvg_outcome.2.2.2.2.1, lvg_outcome.2.2.2.2.2⟩
 
 /-- **the liveness clause exactly as the property states it is FALSE** (for the model, and — known
+finding — for the code), even when restricted to validators whose relayer DID send an accepted
+keep-alive that has since expired: "every due validator is jailed at the next sweep unless it holds
+more than 25 % of the bonded power or is the last active validator". The full-strength statement is
+kept here in negated form; `inactive_jailed_history` is the true statement with the explicit extra
+disjunct. -/
+theorem liveness_as_written_false :
+    ¬ (∀ (h0 : Int) (ops : List Op) (h t : Int) (v : Val), Due h0 ops h v →
+        acceptedKA v.addr ops ≠ [] →
+        isJailed (run St.init (ops ++ [.endBlock h t])) v.addr = true ∨
+        4 * consPower v > activeTotal (run St.init (ops ++ [.endBlock h t])).vals ∨
+        (activeCount (run St.init (ops ++ [.endBlock h t])).vals = 1 ∧ isActive v = true)) := by
+  intro hall
+  rcases hall 1 lvgLong 2010 2010000 lvgVal lvgLong_due.1 (by rw [lvgLong_due.2]; simp) with h | h | h
+  · rw [lvgLong_outcome.1] at h; cases h
+  · exact lvgLong_outcome.2.1 h
+  · have : isActive lvgVal = false := by decide
+    rw [this] at h; cases h.2
+
+
+/-- the same without the restriction to validators that ever sent a keep-alive (weaker negation, kept
+from the previous version; witness: the 60-block history). **The liveness clause exactly as the property states it is FALSE** (for the model, and — known
 finding — for the code): "every due validator is jailed at the next sweep unless it holds more than
 25 % of the bonded power or is the last active validator". The full-strength statement is kept here
 in negated form; `inactive_jailed_history` is the true statement with the explicit extra disjunct. -/
-theorem liveness_as_written_false :
+theorem liveness_as_written_false_plain :
     ¬ (∀ (h0 : Int) (ops : List Op) (h t : Int) (v : Val), Due h0 ops h v →
         isJailed (run St.init (ops ++ [.endBlock h t])) v.addr = true ∨
         4 * consPower v > activeTotal (run St.init (ops ++ [.endBlock h t])).vals ∨
@@ -2845,6 +3338,30 @@ theorem became_unjailed_within_grace_not_jailed (h0 : Int) (a : Addr) (ops : Lis
   rw [hg2]
   exact decide_eq_true (by omega)
 
+/-- **jail provenance for end blocks, in terms of the history only** (the conclusion of
+`jailed_by_endBlock_only_if` mentioned the grace STORE). If an end block of a well-formed history
+turns the jailed flag of `a` (not the empty address) on, then it is a sweep height, every accepted
+keep-alive of the history for `a` is at least 2000 blocks old, `a` did NOT become unjailed within
+the last 30 blocks — there is no end block of height ≥ `h - 30` at which `a` was unjailed while it
+was not unjailed (or no validator) at the end block before —, and the block time is recorded in
+`jailTimes`, hence in the jail log (`jailLog_eq_history`). -/
+theorem jailed_by_endBlock_only_if_history (h0 : Int) (a : Addr) (ops : List Op) (h t : Int)
+    (hw : wf h0 (ops ++ [.endBlock h t]) = true) (hne : a ≠ [])
+    (hbefore : isJailed (run St.init ops) a = false)
+    (hafter : isJailed (run St.init (ops ++ [.endBlock h t])) a = true) :
+    isSweepHeight h = true ∧ (∀ hk ∈ acceptedKA a ops, hk + keepAliveTTL ≤ h) ∧
+    ¬ (∃ e ∈ endBlocks (ops ++ [.endBlock h t]), h - gracePeriod ≤ e.1 ∧ a ∈ unjailedAddrs e.2.2 ∧
+        ∀ e' ∈ endBlocks (ops ++ [.endBlock h t]), e'.1 + 1 = e.1 → a ∉ unjailedAddrs e'.2.2) ∧
+    t ∈ jailTimes a St.init (ops ++ [.endBlock h t]) := by
+  obtain ⟨h1, h2, _⟩ := jailed_by_endBlock_only_if h0 a ops h t hw hbefore hafter
+  refine ⟨h1, h2, ?_, ?_⟩
+  · rintro ⟨e, he, hrecent, hin, hnew⟩
+    have := became_unjailed_within_grace_not_jailed h0 a ops h t hw hne e he hrecent hin hnew
+    rw [hafter, hbefore] at this
+    cases this
+  · rw [mem_jailTimes_iff]
+    exact Or.inr ⟨ops, h, [], by simp, hbefore, hafter⟩
+
 /-! ### bounded time -/
 
 /-- **jailed within 10 + 30 blocks.** Let `e` bound the expiry of every accepted keep-alive of `a`
@@ -2910,6 +3427,31 @@ TIMES of the successful valset jailings of `a` in that history (`jailTimes`, see
 theorem jailLog_eq_history (ops : List Op) (a : Addr) :
     (run St.init ops).jailLog.get a = recAfter none (jailTimes a St.init ops) :=
   run_jailLog St.init ops a
+
+/-- **`JailedUntil` is tied to the jail log, over histories.** In every history the slashing
+`JailedUntil` of `a` that `MsgUnjail` is gated on equals `jailedAt + duration` of the jail record, i.e.
+it too is a function of the times of the valset jailings of `a` in the history; nothing else
+writes it. -/
+theorem jailedUntil_eq_history (ops : List Op) (a : Addr) :
+    (run St.init ops).jailedUntil.get a
+      = (recAfter none (jailTimes a St.init ops)).map (fun r => r.jailedAt + r.duration) := by
+  rw [← jailLog_eq_history]
+  exact run_untilOk St.init ops a rfl
+
+/-- **the sentence is enforced, over histories**: whatever happened, `MsgUnjail` before
+`jailedAt + duration` of the record the jailing history leads to is refused and changes nothing. -/
+theorem unjail_respects_sentence_history (ops : List Op) (a : Addr) (r : JailRec) (t' : Int)
+    (hr : recAfter none (jailTimes a St.init ops) = some r) (hearly : t' < r.jailedAt + r.duration) :
+    unjail (run St.init ops) t' a = (run St.init ops, .rejected) := by
+  have hu := jailedUntil_eq_history ops a
+  rw [hr] at hu
+  unfold unjail
+  split
+  · rfl
+  · split
+    · rfl
+    · simp [hu, hearly]
+
 
 /-- **repeated jailings lengthen the sentence along the fixed schedule.** If the jailings of `a` in
 a history happened at times `… , t1, t2, …, tn` (oldest first) where `t1` starts a streak (no
@@ -2992,6 +3534,103 @@ theorem quarter_rule_evaluated_at_turn :
   decide
 
 
+
+/-- **the pre-sweep reading of "holds more than 25 % of bonded power" is FALSE.** If the exception
+is read in the state BEFORE the sweep (the natural reading of the property text), the liveness
+clause fails even with an unrestricted "last validator" exception: in `fiveSilent` the last of five
+equal validators holds 20 % before the sweep, five validators are active, and it is not jailed.
+The true statement evaluates the rule at the validator's turn: `inactive_jailed_history_exact`. -/
+theorem quarter_rule_pre_sweep_reading_false :
+    ¬ (∀ (h0 : Int) (ops : List Op) (h t : Int) (v : Val), Due h0 ops h v →
+        isJailed (run St.init (ops ++ [.endBlock h t])) v.addr = true ∨
+        4 * consPower v > activeTotal (run St.init ops).vals ∨
+        activeCount (run St.init ops).vals = 1) := by
+  intro hall
+  obtain ⟨q1, q2, q3, q4, _⟩ := quarter_rule_evaluated_at_turn
+  rcases hall 1 fiveSilent 60 120000000000 lastOfFive q1 with h | h | h
+  · rw [q4] at h; cases h
+  · exact q2 h
+  · rw [q3] at h; cases h
+
+
+/-! ### provenance and liveness from ANY store (an upgraded chain) -/
+
+/-- **the keep-alive store from any store.** From ANY store `s0` (no well-formedness needed): the
+`AliveUntilBlockHeight` of `a` after `ops` is `hk + 2000` for the LAST accepted keep-alive of the
+history, and the record `s0` held if there was none. -/
+theorem alive_from_any_store (s0 : St) (ops : List Op) (a : Addr) :
+    (run s0 ops).alive.get a = aliveAfter (s0.alive.get a) (acceptedKAFrom s0 a ops) ∧
+    ((acceptedKAFrom s0 a ops = [] ∧ (run s0 ops).alive.get a = s0.alive.get a) ∨
+     (∃ hk ∈ acceptedKAFrom s0 a ops, (run s0 ops).alive.get a = some (hk + keepAliveTTL))) := by
+  refine ⟨run_alive s0 ops a, ?_⟩
+  rw [run_alive]
+  exact aliveAfter_cases _ _
+
+/-- **the snapshot from any store.** From ANY store — in particular one whose snapshot blob is still
+in the legacy comma-joined format — the blob after `ops` is the hex encoding of the validators
+unjailed at the LAST end block of the history; it is the blob of `s0` only while no end block has
+run. So the legacy format disappears with the first block after the upgrade. -/
+theorem prev_from_any_store (s0 : St) (ops : List Op) :
+    (endBlocksFrom s0 ops = [] ∧ (run s0 ops).prev = s0.prev) ∨
+    (∃ e, (endBlocksFrom s0 ops).getLast? = some e ∧
+      (run s0 ops).prev = some (encodeSet (unjailedAddrs e.2.2))) := by
+  rw [run_prev]
+  exact prevAfter_cases _ _
+
+/-- **the jail log and `JailedUntil` from any store**: `jailLog_eq_history` / `jailedUntil_eq_history`
+with the records of `s0` as the starting point. -/
+theorem jailLog_from_any_store (s0 : St) (ops : List Op) (a : Addr) :
+    (run s0 ops).jailLog.get a = recAfter (s0.jailLog.get a) (jailTimes a s0 ops) ∧
+    (UntilOk s0 a → UntilOk (run s0 ops) a) :=
+  ⟨run_jailLog s0 ops a, run_untilOk s0 ops a⟩
+
+/-- **the grace store from any store.** After a well-formed history from ANY store, a grace record
+`g` of `a` is either the record `s0` held, or the end block of height `g` is in the history, `a` was
+unjailed when it ran and was not unjailed when the end block of `g - 1` ran, if the history has one
+(at the first end block after an upgrade the legacy blob may be misread: that grants ONE fresh
+grace period, see the example below). -/
+theorem grace_from_any_store (s0 : St) (h0 : Int) (a : Addr) (ops : List Op) (hw : wf h0 ops = true)
+    (g : Int) (hg : (run s0 ops).grace.get a = some g) :
+    ((∃ e ∈ endBlocksFrom s0 ops, e.1 = g ∧ a ∈ unjailedAddrs e.2.2) ∧
+      (∀ e ∈ endBlocksFrom s0 ops, e.1 + 1 = g → a ∉ unjailedAddrs e.2.2)) ∨
+    s0.grace.get a = some g :=
+  (graceInvFrom s0 h0 a ops hw).grace_prov g hg
+
+/-- **liveness, exact, from ANY store.** `inactive_jailed_history_exact` does not depend on the chain
+having started from the empty store: from any store `s0` (legacy snapshot blob included) that is at
+the begin of block `h0`, a validator that is `DueFrom s0` at a sweep height more than 30 blocks
+later is jailed iff it is not shielded at its turn. -/
+theorem inactive_jailed_exact_from (s0 : St) (h0 : Int) (ops : List Op) (h t : Int) (v : Val)
+    (hd : DueFrom s0 h0 ops h v) :
+    ∃ l1 l2, unjailedVals (run s0 ops) = l1 ++ v :: l2 ∧
+      findVal (sweepAt (run s0 ops) h t l1).vals v.addr = some v ∧
+      isJailed (run s0 (ops ++ [.endBlock h t])) v.addr
+        = !protectedIn (sweepAt (run s0 ops) h t l1).vals (consPower v) := by
+  obtain ⟨hw, hh, hs, hf, hj, hst, hka, hlong, hun, hnd, holdA, holdG⟩ := hd
+  have hmem : v ∈ unjailedVals (run s0 ops) := by
+    unfold unjailedVals
+    exact List.mem_filter.2 ⟨findVal_mem _ _ _ hf, by simp [hj]⟩
+  obtain ⟨l1, l2, hsplit⟩ := List.append_of_mem hmem
+  refine ⟨l1, l2, hsplit, ?_⟩
+  have hal := isAlive_false_from s0 v.addr ops h hka holdA
+  subst hh
+  have hgr := inGrace_false_from s0 h0 v.addr ops hw hlong hun holdG
+  have hrun : run s0 (ops ++ [.endBlock (heightAfter h0 ops) t])
+      = sweep (updateGrace (run s0 ops) (heightAfter h0 ops)) (heightAfter h0 ops) t := by
+    rw [run_snoc]; simp [apply, endBlock, hs]
+  rw [hrun]
+  exact sweep_exact _ _ t l1 l2 v (run_nodup s0 ops hnd) hsplit hst hal hgr
+
+/-- from the empty store `DueFrom` is `Due` -/
+theorem due_iff_dueFrom_init (h0 : Int) (ops : List Op) (h : Int) (v : Val) :
+    Due h0 ops h v ↔ DueFrom St.init h0 ops h v := by
+  unfold Due DueFrom acceptedKA endBlocks acceptedKAFrom endBlocksFrom
+  constructor
+  · rintro ⟨a1, a2, a3, a4, a5, a6, a7, a8, a9⟩
+    exact ⟨a1, a2, a3, a4, a5, a6, a7, a8, a9, by simp [St.init, addrsOf],
+      (by intro u hu; cases hu), (by intro g hg; cases hg)⟩
+  · rintro ⟨a1, a2, a3, a4, a5, a6, a7, a8, a9, _⟩
+    exact ⟨a1, a2, a3, a4, a5, a6, a7, a8, a9⟩
 
 /-! ## Non-vacuity -/
 
@@ -3118,5 +3757,39 @@ example :
     nextSweep (max (max 0 (1 + gracePeriod + 1)) (sweepMinHeight + 1)) = 60 ∧
     wf 1 ops = true ∧ 60 < heightAfter 1 ops ∧ acceptedKA [0x2c] ops = [] ∧
     (∀ x ∈ endBlocks ops, 1 ≤ x.1 → x.1 < 60 → ([0x2c] : Addr) ∈ unjailedAddrs x.2.2) := by decide
+
+set_option maxRecDepth 100000 in
+/-- `jailedUntil_eq_history` / `unjail_respects_sentence_history` / `jailed_by_endBlock_only_if_history`
+through `run St.init`: the end block of height 60 jails `[0x2c]` (flag off before, on after), the jail
+history is `[t]`, the record `{1 min, t}`, `JailedUntil = t + 1 min`; `MsgUnjail` one nanosecond earlier is
+refused, at that time it is accepted -/
+example :
+    isJailed (run St.init escTo60) [0x2c] = false ∧
+    isJailed (run St.init (escTo60 ++ [.endBlock 60 120000000000])) [0x2c] = true ∧
+    wf 1 (escTo60 ++ [.endBlock 60 120000000000]) = true ∧
+    jailTimes [0x2c] St.init (escTo60 ++ [.endBlock 60 120000000000]) = [120000000000] ∧
+    recAfter none [120000000000] = some { duration := minute, jailedAt := 120000000000 } ∧
+    (run St.init (escTo60 ++ [.endBlock 60 120000000000])).jailedUntil.get [0x2c] = some (120000000000 + minute) ∧
+    (unjail (run St.init (escTo60 ++ [.endBlock 60 120000000000])) (120000000000 + minute - 1) [0x2c]).2 = .rejected ∧
+    (unjail (run St.init (escTo60 ++ [.endBlock 60 120000000000])) (120000000000 + minute) [0x2c]).2 = .ok := by
+  decide
+
+set_option maxRecDepth 100000 in
+/-- non-vacuity of `inactive_jailed_exact_from`: on the upgraded store the legacy blob is misread
+at the first end block (the validator gets ONE fresh grace record, at height 1000), the blob is
+rewritten in the hex format, and at the sweep of height 1040 the validator is `DueFrom` and jailed -/
+example : DueFrom upgStore 1000 upgOps 1040 upgVal ∧
+    (run upgStore (plainBlock 1000)).grace.get [0x2c, 1] = some 1000 ∧
+    (run upgStore (plainBlock 1000)).prev = some (encodeSet [[7], [8], [9], [0x2c, 1]]) ∧
+    (run upgStore upgOps).grace.get [0x2c, 1] = some 1000 ∧
+    isJailed (run upgStore (upgOps ++ [.endBlock 1040 1040000])) [0x2c, 1] = true := by
+  refine ⟨⟨by decide, by decide, by decide, by decide, rfl, Or.inl rfl, by decide, by decide, by decide,
+    by decide, ?_, ?_⟩, by decide, by decide, by decide, by decide⟩
+  · intro u hu
+    have : upgStore.alive.get upgVal.addr = some 1005 := by decide
+    rw [this] at hu; cases hu; omega
+  · intro g hg
+    have : upgStore.grace.get upgVal.addr = some 990 := by decide
+    rw [this] at hg; cases hg; omega
 
 end Paloma.KeepAlive
